@@ -611,6 +611,30 @@ pub fn gen_hist(schemes: &[&str], rng: &mut Rng, thorough: bool, cases: &mut Vec
                 }
             }
         }
+        // keys that are not well-formed UTF-8 and whose lossy text images coincide or change order
+        for (i, ks) in [["80", "81"], ["9c01", "c3a9"], ["c3a9", "ff"], ["c0", "c1"], ["e28081", "e2808100"], ["00", "80"]]
+            .iter()
+            .enumerate()
+        {
+            let mut c = Case::new("hist", scheme, id, "non-utf8-keys");
+            id += 1;
+            c.keys = keys.clone();
+            c.lines.push(format!("init kind=build calls=raw:{}:01;raw:{}:02 signer=0", ks[0], ks[1]));
+            c.lines.push("step op=redecode".into());
+            c.lines.push(with_signer(&format!("step op=insert key={} vt=bytes val=0{}", ks[1], i), 0, false));
+            c.lines.push(with_signer(&format!("step op=insert_raw key={} raw=0{}", ks[0], i + 1), 0, false));
+            c.lines.push("step op=redecode".into());
+            c.lines.push(with_signer(&format!("step op=remove_key key={}", ks[0]), 0, false));
+            cases.push(c);
+            let mut c = Case::new("hist", scheme, id, "non-utf8-keys");
+            id += 1;
+            c.keys = keys.clone();
+            c.lines.push("init kind=build calls=udp4:1 signer=0".into());
+            c.lines.push(with_signer(&format!("step op=insert key={} vt=bytes val=01", ks[1]), 0, false));
+            c.lines.push(with_signer(&format!("step op=insert key={} vt=bytes val=02", ks[0]), 0, false));
+            c.lines.push("step op=redecode".into());
+            cases.push(c);
+        }
         // one record copied over another that belongs to a different node, by every route of the
         // standard library; then read, re-decoded and updated
         for how in ["clone", "clone_from", "vec_clone_from", "clone_from_slice", "clone_into", "to_owned"] {
